@@ -2482,6 +2482,273 @@ fn sigs(out: &mut Out, rng: &mut Rng, thorough: bool) {
 }
 
 // ---------------------------------------------------------------------------------------------
+// exchange: element lists with initial_tx / with_excess (the tx_build_exchange shape), every
+// permutation of the list
+// ---------------------------------------------------------------------------------------------
+
+fn all_perms(n: usize) -> Vec<Vec<usize>> {
+	fn go(cur: &mut Vec<usize>, used: &mut Vec<bool>, n: usize, out: &mut Vec<Vec<usize>>) {
+		if cur.len() == n {
+			out.push(cur.clone());
+			return;
+		}
+		for i in 0..n {
+			if !used[i] {
+				used[i] = true;
+				cur.push(i);
+				go(cur, used, n, out);
+				cur.pop();
+				used[i] = false;
+			}
+		}
+	}
+	let mut out = vec![];
+	go(&mut vec![], &mut vec![false; n], n, &mut out);
+	out
+}
+
+#[derive(Clone)]
+enum XE {
+	I(u64, Identifier),
+	C(u64, Identifier),
+	O(u64, Identifier),
+	X([u8; 32]),
+	T(Transaction, String),
+}
+
+fn exchange(out: &mut Out, rng: &mut Rng, thorough: bool) {
+	global::set_local_chain_type(ChainTypes::AutomatedTesting);
+	let n_cases = if thorough { 200 } else { 27 };
+	let sw = SwitchCommitmentType::Regular;
+	let mut stat: std::collections::BTreeMap<String, u64> = Default::default();
+	let mut perms_run = 0u64;
+	let mut five_done = 0u32;
+	for case in 0..n_cases {
+		let keychain = ExtKeychain::from_seed(&rng.bytes(32), true).unwrap();
+		let secp = keychain.secp();
+		let legacy = case % 2 == 1;
+		macro_rules! with_builder {
+			($b:ident, $body:expr) => {
+				if legacy {
+					let $b = LegacyProofBuilder::new(&keychain);
+					$body
+				} else {
+					let $b = ProofBuilder::new(&keychain);
+					$body
+				}
+			};
+		}
+		let tok = |c: char, v: u64, id: &Identifier| format!("{}:{}:{}", c, v, hex(&keychain.derive_key(v, id, sw).unwrap().0));
+		let mut table: std::collections::HashMap<Vec<u8>, String> = Default::default();
+		let mut note = |v: u64, id: &Identifier, table: &mut std::collections::HashMap<Vec<u8>, String>| {
+			let c = keychain.commit(v, id, sw).unwrap();
+			table.insert(c.0.to_vec(), format!("{}:{}", v, hex(&keychain.derive_key(v, id, sw).unwrap().0)));
+		};
+		// ---- party A: inputs (and sometimes change) -> partial_transaction -> (tx0, blind0)
+		let class = match case % 9 {
+			6 => "forgot-excess",
+			7 => "extra-excess",
+			8 => "two-initial",
+			_ => "honest",
+		};
+		let n_a_in = rng.range(1, 2) as usize;
+		let n_a_out = rng.below(2) as usize;
+		let a_ins: Vec<(u64, Identifier)> = (0..n_a_in).map(|i| (rng.range(1000, 1 << 40), ExtKeychain::derive_key_id(3, 1, case as u32, i as u32, 0))).collect();
+		let a_total: u64 = a_ins.iter().map(|x| x.0).sum();
+		let a_outs: Vec<(u64, Identifier)> = (0..n_a_out).map(|i| (rng.range(1, a_total / 4), ExtKeychain::derive_key_id(3, 2, case as u32, i as u32, 0))).collect();
+		let a_left = a_total - a_outs.iter().map(|x| x.0).sum::<u64>();
+		let mut a_elems_s: Vec<String> = vec![];
+		for (v, id) in &a_ins {
+			note(*v, id, &mut table);
+			a_elems_s.push(tok('i', *v, id));
+		}
+		for (v, id) in &a_outs {
+			note(*v, id, &mut table);
+			a_elems_s.push(tok('o', *v, id));
+		}
+		let a_res = with_builder!(b, {
+			let mut el: Vec<Box<build::Append<ExtKeychain, _>>> = vec![];
+			for (v, id) in &a_ins {
+				el.push(build::input(*v, id.clone()));
+			}
+			for (v, id) in &a_outs {
+				el.push(build::output(*v, id.clone()));
+			}
+			catch(AssertUnwindSafe(|| build::partial_transaction(Transaction::empty(), &el, &keychain, &b)))
+		});
+		let (tx0, blind0) = match a_res {
+			Ok(Ok(x)) => x,
+			other => {
+				out.raw(&format!("#ORACLE-FAIL C20 exchange: partial_transaction of the sender's elements [{}] fails: {:?}", a_elems_s.join(","), other.map(|r| r.map(|_| ()))));
+				continue;
+			}
+		};
+		let t_tok = format!("T;{}", a_elems_s.join(";"));
+		// ---- party B's list: initial_tx(tx0), with_excess(blind0), own inputs / outputs
+		let fee = rng.range(1, 500);
+		let n_b_in = if rng.chance(1, 3) { 1 } else { 0 };
+		let b_ins: Vec<(u64, Identifier, bool)> = (0..n_b_in).map(|i| (rng.range(1, 1 << 30), ExtKeychain::derive_key_id(3, 3, case as u32, i as u32, 0), rng.chance(1, 2))).collect();
+		let avail = a_left + b_ins.iter().map(|x| x.0).sum::<u64>() - fee;
+		let big = case % 6 == 5;
+		let n_b_out = if big { 2 } else { 1 };
+		let mut b_outs: Vec<(u64, Identifier)> = vec![];
+		let mut left = avail;
+		for i in 0..n_b_out {
+			let v = if i + 1 == n_b_out { left } else { rng.range(1, left - 1) };
+			left -= v;
+			b_outs.push((v, ExtKeychain::derive_key_id(3, 4, case as u32, i as u32, 0)));
+		}
+		let mut elems: Vec<XE> = vec![XE::T(tx0.clone(), t_tok.clone())];
+		let mut b0 = [0u8; 32];
+		b0.copy_from_slice(blind0.as_ref());
+		if class != "forgot-excess" {
+			elems.push(XE::X(b0));
+		}
+		if class == "extra-excess" {
+			elems.push(XE::X(gen_scalar(rng, false, false)));
+		}
+		if class == "two-initial" {
+			elems.push(XE::T(Transaction::empty(), "T".to_string()));
+		}
+		for (v, id, cb) in &b_ins {
+			note(*v, id, &mut table);
+			elems.push(if *cb { XE::C(*v, id.clone()) } else { XE::I(*v, id.clone()) });
+		}
+		for (v, id) in &b_outs {
+			note(*v, id, &mut table);
+			elems.push(XE::O(*v, id.clone()));
+		}
+		*stat.entry(format!("class={}", class)).or_insert(0) += 1;
+		*stat.entry(format!("elements={}", elems.len())).or_insert(0) += 1;
+		*stat.entry(format!("builder={}", if legacy { "legacy" } else { "new" })).or_insert(0) += 1;
+		// every permutation for lists of up to 5 elements (quick tier: up to 4 elements and the first
+		// 5-element list; 24 random permutations for the other long lists)
+		let all = elems.len() <= 4 || (elems.len() == 5 && (thorough || five_done == 0));
+		if elems.len() == 5 && all {
+			five_done += 1;
+		}
+		let perms: Vec<Vec<usize>> = if all {
+			all_perms(elems.len())
+		} else {
+			(0..(if thorough { 60 } else { 24 }))
+				.map(|_| {
+					let mut p: Vec<usize> = (0..elems.len()).collect();
+					shuffle(rng, &mut p);
+					p
+				})
+				.collect()
+		};
+		let features = KernelFeatures::Plain { fee: FeeFields::new(0, fee).unwrap() };
+		let excess = gen_scalar(rng, false, false);
+		let ex = BlindingFactor::from_slice(&excess);
+		let mut kernel = TxKernel::with_features(features);
+		let msg = kernel.msg_to_sign().unwrap();
+		let skey = ex.secret_key(secp).unwrap();
+		kernel.excess = secp.commit(0, skey).unwrap();
+		let pubkey = kernel.excess.to_pubkey(secp).unwrap();
+		kernel.excess_sig = aggsig::sign_with_blinding(secp, &msg, &ex, Some(&pubkey)).unwrap();
+		let body_str = |tx: &Transaction| -> (String, String) {
+			let name = |c: &Commitment| table.get(&c.0.to_vec()).cloned().unwrap_or_else(|| format!("?{}", hex(&c.0)));
+			let ins: Vec<grin_core::core::CommitWrapper> = tx.inputs().into();
+			let mut i: Vec<String> = ins.iter().map(|c| name(&c.commitment())).collect();
+			let mut o: Vec<String> = tx.outputs().iter().map(|x| name(&x.commitment())).collect();
+			i.sort();
+			o.sort();
+			(format!("[{}]", i.join(",")), format!("[{}]", o.join(",")))
+		};
+		// across the permutations of this list
+		let mut offsets: std::collections::BTreeSet<String> = Default::default();
+		let mut sums: std::collections::BTreeSet<String> = Default::default();
+		let mut good_bodies: std::collections::BTreeSet<String> = Default::default();
+		for (pi, p) in perms.iter().enumerate() {
+			perms_run += 1;
+			let order: Vec<&XE> = p.iter().map(|i| &elems[*i]).collect();
+			let steps_s = format!(
+				"[{}]",
+				order
+					.iter()
+					.map(|e| match e {
+						XE::I(v, id) => tok('i', *v, id),
+						XE::C(v, id) => tok('c', *v, id),
+						XE::O(v, id) => tok('o', *v, id),
+						XE::X(b) => format!("x:{}", hex(b)),
+						XE::T(_, t) => t.clone(),
+					})
+					.collect::<Vec<_>>()
+					.join(",")
+			);
+			// every input / output element stands behind the last initial_tx
+			let last_t = order.iter().rposition(|e| matches!(e, XE::T(..))).unwrap();
+			let well_ordered = order[..last_t].iter().all(|e| matches!(e, XE::X(_) | XE::T(..)))
+				&& matches!(order[last_t], XE::T(_, t) if t != "T");
+			macro_rules! mk {
+				($b:ident) => {
+					order
+						.iter()
+						.map(|e| match e {
+							XE::I(v, id) => build::input(*v, id.clone()),
+							XE::C(v, id) => build::coinbase_input(*v, id.clone()),
+							XE::O(v, id) => build::output(*v, id.clone()),
+							XE::X(b) => build::with_excess(BlindingFactor::from_slice(b)),
+							XE::T(t, _) => build::initial_tx(t.clone()),
+						})
+						.collect::<Vec<Box<build::Append<ExtKeychain, _>>>>()
+				};
+			}
+			let r = with_builder!(b, {
+				let el = mk!(b);
+				catch(AssertUnwindSafe(|| build::transaction_with_kernel(&el, kernel.clone(), ex.clone(), &keychain, &b)))
+			});
+			let res = match r {
+				Ok(Ok(tx)) => {
+					let v = validate_str(tx.validate(Weighting::AsTransaction));
+					let (bi, bo) = body_str(&tx);
+					offsets.insert(hex(tx.offset.as_ref()));
+					*stat.entry(format!("{} {}: validate={}", class, if well_ordered { "elements-after-initial_tx" } else { "elements-before-initial_tx" }, v)).or_insert(0) += 1;
+					if well_ordered {
+						good_bodies.insert(format!("{} {}", bi, bo));
+						if class == "honest" && v != "ok" {
+							out.raw(&format!("#ORACLE-FAIL C20 exchange: the transaction built from initial_tx + with_excess(blind sum) + own elements does not validate ({}) in the order {} (fee {})", v, steps_s, fee));
+						}
+					}
+					format!("{} {} {} {}", hex(tx.offset.as_ref()), bi, bo, v)
+				}
+				Ok(Err(_)) => "err".to_string(),
+				Err(_) => "panic".to_string(),
+			};
+			out.line(&format!("keys xbuild {} {} {}", fee, hex(&excess), steps_s), &res);
+			if pi % 4 == 0 {
+				let r = with_builder!(b, {
+					let el = mk!(b);
+					catch(AssertUnwindSafe(|| build::partial_transaction(Transaction::empty(), &el, &keychain, &b)))
+				});
+				let s = match r {
+					Ok(Ok((tx, sum))) => {
+						sums.insert(hex(sum.as_ref()));
+						let (bi, bo) = body_str(&tx);
+						format!("{} {} {}", hex(sum.as_ref()), bi, bo)
+					}
+					Ok(Err(_)) => "err".to_string(),
+					Err(_) => "panic".to_string(),
+				};
+				out.line(&format!("keys xpartial {}", steps_s), &s);
+			}
+		}
+		// the sums do not depend on the order of the elements
+		if offsets.len() > 1 {
+			out.raw(&format!("#ORACLE-FAIL C20 exchange: the offset of the built transaction depends on the order of the element list: {} different offsets over {} permutations of [{}] (fee {}, excess {})", offsets.len(), perms.len(), elems.iter().map(|e| match e { XE::I(v, id) => tok('i', *v, id), XE::C(v, id) => tok('c', *v, id), XE::O(v, id) => tok('o', *v, id), XE::X(b) => format!("x:{}", hex(b)), XE::T(_, t) => t.clone() }).collect::<Vec<_>>().join(","), fee, hex(&excess)));
+		}
+		if sums.len() > 1 {
+			out.raw(&format!("#ORACLE-FAIL C20 exchange: the blinding sum partial_transaction returns depends on the order of the element list ({} different sums), case {}", sums.len(), case));
+		}
+		if good_bodies.len() > 1 {
+			out.raw(&format!("#ORACLE-FAIL C20 exchange: the body of the built transaction differs between orders that keep all inputs / outputs behind initial_tx, case {}", case));
+		}
+	}
+	out.raw(&format!("#STAT exchange: cases={} permutations run={} distribution={:?}", n_cases, perms_run, stat));
+}
+
+// ---------------------------------------------------------------------------------------------
 // one hasher object reused across consecutive derivations
 // ---------------------------------------------------------------------------------------------
 
@@ -2677,6 +2944,7 @@ fn main() {
 		"seeds" => seeds(&mut out, &mut rng, thorough),
 		"hasher" => hasher(&mut out, &mut rng, thorough),
 		"sigs" => sigs(&mut out, &mut rng, thorough),
+		"exchange" => exchange(&mut out, &mut rng, thorough),
 		"malleable" => malleable(&mut out, &mut rng),
 		_ => {
 			eprintln!("unknown mode {}", mode);
